@@ -18,6 +18,7 @@ EXPLANATION = (
     'size (the kernel reports 111 for a 108-byte path); (R4) for sockaddr_un the length given to the kernel '
     'must depend on the address (abstract and unnamed addresses are length-delimited) — known finding K4. '
     'Equality of the round trip for all values is not decided.'
+    ' (R3) the forward search for the path terminator is true for a zero byte (first NUL).'
 )
 NOT_DECIDED = "value equality of the round trip for all addresses"
 ASSUMPTIONS = ["std::net accessors (port, ip, octets, flowinfo, scope_id) are each other's inverses with the constructors"]
